@@ -32,8 +32,18 @@ Proof.
   destruct (y =? d); [auto|]. intros [H|H]; auto.
 Qed.
 
-(* the invariant is established by Sleep and preserved by every step of the FIXED system *)
-Lemma einv_step s e s' : einv s -> estep true s e = Some s' -> einv s'.
+(* a wake rule is SAFE when it signals at least whenever the new deadline is the earliest *)
+Definition rule_safe (rule : wake_rule) : Prop := forall d l, earliest d l = true -> rule d l = true.
+
+Lemma rule_earliest_safe : rule_safe rule_earliest.
+Proof. intros d l H. exact H. Qed.
+
+Section Safe.
+Variable rule : wake_rule.
+Hypothesis Hsafe : rule_safe rule.
+
+(* the invariant is established by Sleep and preserved by every step under a safe wake rule *)
+Lemma einv_step s e s' : einv s -> estep rule s e = Some s' -> einv s'.
 Proof.
   intros Hinv Hs. destruct e as [d ic| | | |d|d|dt]; simpl in Hs.
   - (* Enqueue *)
@@ -41,7 +51,8 @@ Proof.
     unfold einv in *; simpl. destruct (e_th s) as [|u]; [exact I|].
     destruct (e_wake s) eqn:Hw; simpl; [left; reflexivity|].
     destruct ic; simpl; [left; reflexivity|].
-    destruct (earliest d (e_dl s)) eqn:He; [left; reflexivity|].
+    destruct (earliest d (e_dl s)) eqn:He; [left; rewrite (Hsafe _ _ He); reflexivity|].
+    destruct (rule d (e_dl s)); [left; reflexivity|].
     right. destruct Hinv as [Hf|Hinv]; [discriminate|].
     destruct u as [t|].
     + intros x [<-|Hx]; [|auto].
@@ -73,11 +84,11 @@ Proof.
     intros d Hd. specialize (Hinv d Hd). lia.
 Qed.
 
-Lemma einv_run tr : forall s s', einv s -> erun true s tr = Some s' -> einv s'.
+Lemma einv_run tr : forall s s', einv s -> erun rule s tr = Some s' -> einv s'.
 Proof.
   induction tr as [|e r IH]; intros s s' Hinv Hr; simpl in Hr.
   - injection Hr as <-. assumption.
-  - destruct (estep true s e) as [s1|] eqn:Es; [|discriminate].
+  - destruct (estep rule s e) as [s1|] eqn:Es; [|discriminate].
     eapply IH; [eapply einv_step; eassumption | eassumption].
 Qed.
 
@@ -87,7 +98,7 @@ Proof. exact I. Qed.
 (* every reachable state of the fixed system: a blocked thread with no wake pending has a
    timeout, and it expires at most 1 ms after every outstanding deadline (or now) *)
 Theorem evthread_no_missed_deadline tr s :
-  erun true einit tr = Some s ->
+  erun rule einit tr = Some s ->
   forall u, e_th s = Blocked u -> e_wake s = false ->
   forall d, In d (e_dl s) -> exists t, u = Some t /\ t <= Z.max (e_now s) d + 1.
 Proof.
@@ -99,19 +110,32 @@ Proof.
   - rewrite Hinv in Hd. contradiction.
 Qed.
 
+End Safe.
+
 (* the pinned tree's wake rule does not have the property: a query that reuses an idle
    connection (no socket-interest change) leaves the thread asleep without timeout *)
 Theorem evthread_refuted_without_fix :
-  exists tr s d, erun false einit tr = Some s /\ e_th s = Blocked None /\ e_wake s = false /\ In d (e_dl s).
+  exists tr s d, erun rule_pinned einit tr = Some s /\ e_th s = Blocked None /\ e_wake s = false /\ In d (e_dl s).
 Proof.
   exists [Sleep; Enqueue 250 false], (mkE 0 [250] (Blocked None) false), 250.
   vm_compute. repeat split; auto.
 Qed.
 
+(* neither does "wake only when nothing else is outstanding": an older query in a later retry
+   round (deadline 1000) keeps the thread asleep past the deadline (300 + 250 = 550) of a
+   fresh query sent on the same busy connection *)
+Theorem evthread_refuted_wake_only_when_empty :
+  exists tr s u d, erun rule_only einit tr = Some s /\ e_th s = Blocked (Some u) /\ e_wake s = false /\
+                   In d (e_dl s) /\ Z.max (e_now s) d + 1 < u.
+Proof.
+  exists [Enqueue 1000 true; Sleep; WakeUp; Sleep; Tick 300; Enqueue 550 false].
+  eexists. exists 1001, 550. vm_compute. repeat split; auto.
+Qed.
+
 (* non-vacuity: a reachable state of the fixed system with a blocked thread and a pending query *)
 Example evthread_example :
-  exists s, erun true einit [Enqueue 300 true; WakeUp; Sleep; Enqueue 500 false] = None \/
-            (erun true einit [Sleep; Enqueue 300 false; WakeUp; Sleep; Enqueue 500 false] = Some s /\
+  exists s, erun rule_earliest einit [Enqueue 300 true; WakeUp; Sleep; Enqueue 500 false] = None \/
+            (erun rule_earliest einit [Sleep; Enqueue 300 false; WakeUp; Sleep; Enqueue 500 false] = Some s /\
              e_th s = Blocked (Some 301) /\ e_wake s = false /\ e_dl s = [500; 300]).
 Proof. eexists. right. vm_compute. repeat split. Qed.
 
